@@ -44,7 +44,7 @@ def configs(tier, seed):
     for (o, ri) in ((1, 5), (0, 1), (4, 2), (2, 0), (-2, 1)):
         for m in ('NPP', 'EPP', 'PNP', 'NNP'):
             out.append(dict(biort='near_sym_a', qshift='qshift_a', J=2, H=8, W=8, B=2, C=3, mask=m, o=o, ri=ri))
-    for (h, w, J) in (((20, 32, 3), (12, 24, 3)) if tier == 'quick' else ((20, 32, 3), (12, 24, 3), (24, 40, 4))):
+    for (h, w, J) in (((12, 24, 3),) if tier == 'quick' else ((20, 32, 3), (12, 24, 3), (24, 40, 4))):
         for m in (('N' + 'P' * J,) if tier == 'quick' else ('N' + 'P' * J, 'E' + 'P' * J)):
             out.append(dict(biort='near_sym_a', qshift='qshift_a', J=J, H=h, W=w, B=1, C=1, mask=m))
     for ctx in ('nograd', 'transposed', 'reqgrad'):      # (channels-last pyramids: the shim's memory-format model of stack()/conv outputs is not validated for 6-D band tensors)
